@@ -41,6 +41,25 @@ type C09Scenario struct {
 	TwoBuses bool `json:"two_buses,omitempty"`
 }
 
+// c09ReadAll reads the whole log by following next offsets: a store may hand out the log in pieces however large
+// the limit (the durable-streams store returns one server chunk per Read, and exact-size events fill chunks fast).
+func c09ReadAll(ctx context.Context, st eventbus.EventStore) ([]*eventbus.StoredEvent, error) {
+	var all []*eventbus.StoredEvent
+	from := eventbus.OffsetOldest
+	for i := 0; i < 1000; i++ {
+		evs, next, err := st.Read(ctx, from, 0)
+		if err != nil {
+			return all, err
+		}
+		all = append(all, evs...)
+		if len(evs) == 0 || next == from {
+			break
+		}
+		from = next
+	}
+	return all, nil
+}
+
 // slowStore is a store that ignores its context and takes its time.
 type slowStore struct {
 	eventbus.EventStore
@@ -178,7 +197,7 @@ func (sc *C09Scenario) Execute(t *testing.T) *core.Outcome {
 					handled[id]++
 					rec.Add("handle", id, si, "")
 					// the record of the event being handled must already be readable
-					evs, _, err := store.Read(ctx, eventbus.OffsetOldest, 0)
+					evs, err := c09ReadAll(ctx, store)
 					if err != nil {
 						out.V("store-read-failed", "Read from inside a handler failed: %v", err)
 						return
@@ -226,7 +245,7 @@ func (sc *C09Scenario) Execute(t *testing.T) *core.Outcome {
 			b.Wait()
 		}
 		// after quiescence: exactly N records, offsets distinct and strictly increasing, content round-trips
-		evs, _, err := store.Read(ctx, eventbus.OffsetOldest, 0)
+		evs, err := c09ReadAll(ctx, store)
 		if err != nil {
 			out.V("store-read-failed", "final Read failed: %v", err)
 			return
